@@ -133,3 +133,14 @@ package engine
 //@ invariant forall n string :: forall i :: dom(retMap, n) && 0 <= i && i < len(allNg[n].CallRef) ==> refOK(allNg[n].CallRef[i]) && dom(retMap, refName(allNg[n].CallRef[i]))
 //@ invariant forall n string :: forall i :: dom(retMap, n) && 0 <= i && i < len(allNg[n].CallRef) ==> bound(allNg[n].CallRef[i], allNg)
 //@ invariant forall n string :: iterseen(n) ==> dom(retMap, n) || dom(retErrMap, n)
+
+// the function tables the loader was given (recorded for callers' traces)
+// ParseScript itself is not verified (it drives the generated parser): its frame - it writes
+// only objects it allocates (and pooled parser/task objects) - is ASSUMED.
+//@ func ParseScript
+//@ trusted
+//@ modifies nothing
+//@ ensures forall n string :: dom(result0, n) ==> result0[n] != nil
+//@ ensures forall n string :: dom(result1, n) ==> result1[n] != nil
+//@ observe fns map[string]runtime.FuncCall = call
+//@ observe chks map[string]runtime.FuncCheck = check
